@@ -11,7 +11,7 @@ import model, findings as F
 from props import base
 
 PROPS_MODULES = ["ShexerModel.Props.C06", "ShexerModel.Props.GenStrCorners", "ShexerModel.Props.GenStrLiteral", "ShexerModel.Props.GenStrNtTok"]
-DEPS = ["S.remove_corners", "S.decide_literal_type"] + ["S." + x for x in ('nt_look_for_index_of_closing_quotes', 'nt_look_for_last_index_before_blank', 'nt_look_for_last_index_of_uri_token', 'nt_look_for_last_index_of_bnode_token', 'nt_look_for_last_index_of_unlabelled_number_token', 'nt_look_for_last_index_of_literal_token', 'nt_look_for_tokens')]
+DEPS = ["S.remove_corners", "S.decide_literal_type"] + ["S." + x for x in ('nt_look_for_index_of_closing_quotes', 'nt_look_for_last_index_before_blank', 'nt_look_for_last_index_of_uri_token', 'nt_look_for_last_index_of_bnode_token', 'nt_look_for_last_index_of_unlabelled_number_token', 'nt_look_for_last_index_of_literal_token', 'nt_look_for_tokens', 'parse_literal', 'parse_unquoted_literal', 'tune_subj', 'tune_prop', 'tune_token')]
 replay = base.replay
 
 ATOMS = ['\\"', '\\\\', '@', '^^', '#', ' .', '<', '>', 'xsd:', 'geo:', '7', '_', 'é', '\\u00e9', 'a', ' ', '.', '\\"^^', ';', ',',
@@ -270,7 +270,7 @@ def run(ctx):
                     dis.append({"what": "Nt.parseLine (model) vs NtTriplesYielder", "line": line, "model": ml, "impl": got})
                     if len(dis) > 20:
                         break
-    base.fragment_s_tie(ctx, dis, stats, ['remove_corners', 'decide_literal_type', 'there_is_arroba_after_last_quotes', 'nt_look_for_index_of_closing_quotes', 'nt_look_for_last_index_before_blank', 'nt_look_for_last_index_of_uri_token', 'nt_look_for_last_index_of_bnode_token', 'nt_look_for_last_index_of_unlabelled_number_token', 'nt_look_for_last_index_of_literal_token', 'nt_look_for_tokens'])
+    base.fragment_s_tie(ctx, dis, stats, ['remove_corners', 'decide_literal_type', 'there_is_arroba_after_last_quotes', 'nt_look_for_index_of_closing_quotes', 'nt_look_for_last_index_before_blank', 'nt_look_for_last_index_of_uri_token', 'nt_look_for_last_index_of_bnode_token', 'nt_look_for_last_index_of_unlabelled_number_token', 'nt_look_for_last_index_of_literal_token', 'nt_look_for_tokens', 'parse_literal', 'parse_unquoted_literal', 'tune_subj', 'tune_prop', 'tune_token'])
     return base.std_result(ctx, cases, viol, dis, base.known_lines(kf, hit), stats, sum(1 for st, _, _ in cases if st[2][0] == 'L' and len(st[2][1]) > 0), [],
                            "single-line N-Triples statements: literal contents = every string of <= %d atoms over a %d-atom adversarial alphabet "
                            "(escaped quote, escaped backslash, '@', '^^', '#', ' .', '<', '>', 'xsd:', 'geo:', digits, '_', non-ASCII, \\\\uXXXX, ';', ',') x "
